@@ -23,6 +23,11 @@ def options(kind):
     g = dict(copy.deepcopy(FULL), support_lib_sources=True)
     g['cpp']['string_serialization'] = False
     g['jni']['identifier'] = {'file': {'style': 'snake_case', 'prefix': 'jni_'}}
+    if kind == 2:       # styles that keep item / field names as written: keywords must then be diagnosed in every position
+        g['cpp']['identifier'] = {'enum': 'none', 'field': 'none', 'method': 'none'}
+        g['java']['identifier'] = {'enum': 'none', 'field': 'none', 'method': 'none'}
+        g['objc']['identifier'] = {'enum': 'none', 'field': 'none', 'method': 'none'}
+        g['cppcli']['identifier'] = {'enum': 'none'}
     if kind == 1:
         g['cpp']['namespace'] = 'my::app'
         g['java']['package'] = 'org.my_app.gen'
@@ -86,6 +91,20 @@ def run(ctx):
         cases.append({'files': {'main.pydjinni': idl}, 'options': options(0), 'continue_after_error': True, 'keep_content': True, 'include_support': True,
                       'timeout_s': 120, 'ops': [['parse', 'main.pydjinni']] + [['generate', t] for t in ['cpp', 'java', 'objc', 'cppcli', 'yaml']]})
         meta.append('keyword:' + kw)
+    for kw in KEYWORD_NAMES:
+        idl = '%s_t = enum { %s; other; }\n%s_f = flags { %s; }\n' % (kw, kw, kw, kw)
+        cases.append({'files': {'main.pydjinni': idl}, 'options': options(2), 'continue_after_error': True, 'keep_content': True, 'include_support': True,
+                      'timeout_s': 120, 'ops': [['parse', 'main.pydjinni']] + [['generate', t] for t in ['cpp', 'java', 'objc', 'cppcli', 'yaml']]})
+        meta.append('keyword-item:' + kw)
+    # user types that occur only deep inside generic arguments: their headers must still be included
+    deep = ('inner = record { v: i8; }\nkind = enum { a; b; }\nother = record { s: string; } deriving (eq)\nkind2 = enum { c; }\nopt_t = flags { f; }\n'
+            'outer = record { a: list<list<inner>>; m: map<string, list<kind>>; }\n'
+            'svc = interface +cpp +java +objc +cppcli { f(x: list<list<other>>) -> map<string, list<kind2>>; g(y: list<map<i32, opt_t>>?); }\n'
+            'fn = function (p: list<list<inner>>) -> list<list<kind>>;\nerr = error { bad(p: list<list<other>>); }\n')
+    for k_ in (0, 1):
+        cases.append({'files': {'main.pydjinni': deep}, 'options': options(k_), 'continue_after_error': True, 'keep_content': True, 'include_support': True,
+                      'timeout_s': 120, 'ops': [['parse', 'main.pydjinni']] + [['generate', t] for t in ['cpp', 'java', 'objc', 'cppcli', 'yaml']]})
+        meta.append('deep-generics')
     # probe of finding C01-K2: with the default file naming a JNI header has the name of the C++ header it includes
     dflt = options(0)
     del dflt['generate']['jni']['identifier']
